@@ -103,7 +103,8 @@ def decide(prop, args, P, REG, targets, assumed, results, seed, t0, known):
         for bv in sb.get("violations") or []:
             total += 1
             violations.append({"obligation": f"{sb['function']}/bounded.{sb['clause'].replace(' ', '-')}", "status": "refuted",
-                               "detail": f"measured on the real code: {bv['steps']} line events for an input of {bv['len']} bytes exceed the bound ({sb['bound']}); outcome {bv['outcome']}",
+                               "detail": (f"measured on the real code: {bv['steps']} line events for an input of {bv['len']} bytes exceed the bound ({sb['bound']}); outcome {bv['outcome']}"
+                                          if "steps" in bv else f"run on the real code (bounded stand-in, {sb['bound']}): input {bv.get('input')!r}: expected {bv.get('expected')!r}, got {bv.get('got')!r}"),
                                "model": None, "function": sb["function"], "inputs": None, "replay_meta": None, "measured": bv})
 
     exit_code = 0
@@ -174,6 +175,11 @@ def decide(prop, args, P, REG, targets, assumed, results, seed, t0, known):
                 "second_backend_query_instances": second_instances or "thorough tier only",
                 "solver_ms_total": round(solver_ms, 1),
                 "bounded_standins": standins,
+                "callee_contract_closure": {
+                    "own_functions": getattr(args, "own_targets", len(targets)),
+                    "callee_contract_functions_also_verified": len(targets) - getattr(args, "own_targets", len(targets)),
+                    "note": "functions whose contracts the property's own proofs used at call sites (transitively) are verified in this run too, although other properties claim them",
+                },
                 "known_findings_matched": known_hits,
                 "samples": samples or [{"note": "no SMT-LIB2 sample kept"}],
                 "paths_explored": sum(f["paths"] or 0 for f in funcs),
